@@ -4,7 +4,6 @@ import (
 	"encoding/json"
 	"fmt"
 	"go/ast"
-	"go/parser"
 	"go/token"
 	"os"
 	"os/exec"
@@ -64,6 +63,8 @@ func __iff(a, b bool) bool                       { return a == b }
 func __fresh(x any) bool                         { return true }
 func __elems(x any) any                          { return x }
 func __samefn(a, b any) bool                     { return true }
+func __entry[T any](x T) T                       { return x }
+func __rangeindex() int                          { return 0 }
 func __forall(lo, hi int, f func(int) bool) bool {
 	for i := lo; i < hi; i++ {
 		if !f(i) {
@@ -133,39 +134,27 @@ func shortPkgOfDir(root, dir string) string {
 
 // buildOverlayRAC instruments one package directory with executable checks.
 func buildOverlayRAC(root, pkgDir string) (map[string][]byte, error) {
+	racMode = true
+	defer func() { racMode = false }()
 	files := map[string][]byte{}
 	contracts, err := parseContracts(pkgDir)
 	if err != nil || len(contracts) == 0 {
 		return files, err
 	}
+	pf, err := parsePkgFiles(pkgDir)
+	if err != nil {
+		return nil, err
+	}
+	contracts = applyTemplates(contracts, pf.funcKeys)
 	byKey := map[string]*Contract{}
 	for _, c := range contracts {
 		byKey[c.Key] = c
 	}
-	entries, err := os.ReadDir(pkgDir)
-	if err != nil {
-		return nil, err
-	}
-	fset := token.NewFileSet()
-	pkgName := ""
+	fset := pf.fset
+	pkgName := pf.pkgName
 	sp := shortPkgOfDir(root, pkgDir)
-	for _, e := range entries {
-		name := e.Name()
-		if e.IsDir() || !strings.HasSuffix(name, ".go") || strings.HasSuffix(name, "_test.go") {
-			continue
-		}
-		path := filepath.Join(pkgDir, name)
-		src, err := os.ReadFile(path)
-		if err != nil {
-			return nil, err
-		}
-		f, err := parser.ParseFile(fset, path, src, parser.ParseComments)
-		if err != nil {
-			return nil, err
-		}
-		if pkgName == "" {
-			pkgName = f.Name.Name
-		}
+	for _, file := range pf.files {
+		path, src, f := file.path, file.src, file.ast
 		var ins []insertion
 		for _, d := range f.Decls {
 			fd, ok := d.(*ast.FuncDecl)
@@ -179,6 +168,8 @@ func buildOverlayRAC(root, pkgDir string) (map[string][]byte, error) {
 			off := func(p token.Pos) int { return fset.Position(p).Offset }
 			full := sp + "." + c.Key
 			resultName := "__ret0"
+			lastErr := lastErrName(fd, src, off)
+			res0 := firstResultType(fd, src, off)
 			if fd.Type.Results != nil {
 				named := false
 				for _, fld := range fd.Type.Results.List {
@@ -207,13 +198,19 @@ func buildOverlayRAC(root, pkgDir string) (map[string][]byte, error) {
 			var sb strings.Builder
 			sb.WriteString(" __racPre := true;")
 			for _, r := range c.Requires {
-				fmt.Fprintf(&sb, " __racPre = __racPre && (%s);", specToGo(r.Text, resultName))
+				if txt, ok := substClause(r.Text, lastErr, res0); ok {
+					fmt.Fprintf(&sb, " __racPre = __racPre && (%s);", specToGo(txt, resultName))
+				}
 			}
 			fmt.Fprintf(&sb, " if !__racPre { __rac_prefail(%q) };", c.Key)
 			counter := 0
 			var checks strings.Builder
 			for _, r := range c.Ensures {
-				txt, hoists := hoistOld(r.Text, &counter)
+				rt, ok := substClause(r.Text, lastErr, res0)
+				if !ok {
+					continue
+				}
+				txt, hoists := hoistOld(rt, &counter)
 				for _, h := range hoists {
 					fmt.Fprintf(&sb, " %s := __old(%s); _ = %s;", h[0], specToGo(h[1], resultName), h[0])
 				}
@@ -224,6 +221,18 @@ func buildOverlayRAC(root, pkgDir string) (map[string][]byte, error) {
 			}
 			ins = append(ins, insertion{off(fd.Body.Lbrace) + 1, sb.String()})
 			loops := collectLoops(fd.Body)
+			if len(c.LoopInv) > 0 {
+				for n, l := range loops {
+					if _, isFor := l.(*ast.ForStmt); isFor {
+						if lc := c.Loops[n+1]; lc == nil {
+							c.Loops[n+1] = &LoopContract{Invariants: c.LoopInv, Decreases: c.LoopDec, merged: true}
+						} else if !lc.merged {
+							lc.Invariants = append(append([]Clause(nil), c.LoopInv...), lc.Invariants...)
+							lc.merged = true
+						}
+					}
+				}
+			}
 			for n, lc := range c.Loops {
 				if n < 1 || n > len(loops) {
 					continue
@@ -231,8 +240,8 @@ func buildOverlayRAC(root, pkgDir string) (map[string][]byte, error) {
 				var lb strings.Builder
 				for _, r := range lc.Invariants {
 					txt, hoists := hoistOld(r.Text, &counter)
-					if len(hoists) > 0 {
-						continue // invariants over old() are not checked at run time
+					if len(hoists) > 0 || strings.Contains(txt, "entry(") || strings.Contains(txt, "rangeindex(") {
+						continue // invariants over old()/entry() are not checked at run time
 					}
 					fmt.Fprintf(&lb, " if __racPre && !(%s) { __rac_fail(%q) };", specToGo(txt, resultName), fmt.Sprintf("%s#inv:loop%d.%s", full, n, r.Label))
 				}
